@@ -39,6 +39,7 @@ DEFAULT_PROFILE = dict(
     union_constraints=True,
     inline_depth=2,
     neg_defaults=False,
+    inline_enum_explicit=False,
     bit_trailing_one=False,   # BIT STRING values always end in a 1 bit (KF: UPER/OER drop trailing zero bits)
     real_decimal15=False,     # REAL values exactly representable in <= 15 significant decimal digits (BASIC/CANONICAL XER text)
     wide_plain=False,         # BMPString/UniversalString values restricted to ASCII letters/digits (KF: XER)
@@ -89,7 +90,7 @@ class Gen:
         cls = cls or rng.choice("CCCAP")
         if num is None:
             if self.p["big_tags"] and rng.random() < 0.3:
-                num = rng.choice([30, 31, 32, 127, 128, 129, 16383, 16384, (1 << 21) - 1, 1 << 21,
+                num = rng.choice([30, 31, 32, 62, 63, 64, 127, 128, 129, 16383, 16384, (1 << 21) - 1, 1 << 21,
                                   (1 << 28) - 1, 1 << 28, (1 << 29) - 1])
             else:
                 num = rng.randrange(0, 30)
@@ -100,6 +101,9 @@ class Gen:
         """a tagging mode keyword that is legal for t: IMPLICIT must not be
         written on an untagged CHOICE (X.680 31.2.7)"""
         modes = [None, "IMPLICIT", "EXPLICIT"]
+        if t.kind == "ENUMERATED" and not self.p.get("inline_enum_explicit"):
+            # KF-C02: an inline ENUMERATED member with an EXPLICIT tag is emitted with the tag twice
+            return "IMPLICIT"
         try:
             save, t.tag = t.tag, None
             try:
@@ -271,6 +275,9 @@ class Gen:
                 t.size_c = None
             return t
         n = rng.choice([0, 1, 1, 2, 2, 3, 3, 4, 5, 7, 10, 12]) if k != "CHOICE" else rng.choice([1, 2, 2, 3, 4, 6, 9])
+        optrun = k == "SEQUENCE" and rng.random() < 0.12
+        if optrun:
+            n = rng.choice([9, 10, 11, 13, 17])     # a long run of consecutive OPTIONAL members, then a mandatory one
         if k == "SET" and n == 0 and not p.get("empty_set"):
             n = 1       # KF-C10: "SET { ... }" / "SET { }" emits an empty enum (uncompilable)
         comps = []
@@ -284,7 +291,9 @@ class Gen:
                 self.n += 1
                 nm = "n%d" % self.n
             c = Comp(nm, mt)
-            if k != "CHOICE":
+            if optrun:
+                c.optional = i < n - 1
+            elif k != "CHOICE":
                 r = rng.random()
                 if r < 0.3:
                     c.optional = True
@@ -319,6 +328,19 @@ class Gen:
                     t.comps.append(Comp("m0", self.atom("NULL")))
             t.comps.append(c)
         self.fix_tags(t)
+        if k == "CHOICE" and t.ext:
+            # X.680: the tags of CHOICE extension additions must be in canonical (ascending) order
+            try:
+                from .model import CLS_BITS
+                probe = Module("P", self.mod.tagdefault)
+                probe.types = dict(self.mod.types)
+                probe.types["X"] = t
+                probe.finalize()
+                t.ext.sort(key=lambda c: min((CLS_BITS[cl], nu) for cl, nu in probe.outer_tags(c)))
+                for c in t.all_comps():
+                    c.autotag = None
+            except (KeyError, ValueError):
+                pass
         return t
 
     def try_default(self, c):
@@ -374,7 +396,7 @@ class Gen:
         if rng.random() < 0.3:
             rng.shuffle(nums)
         for i, c in enumerate(comps):
-            num = nums[i] if rng.random() < 0.8 else 40 + nums[i] * 37
+            num = nums[i] if rng.random() < 0.8 else rng.choice([40 + nums[i] * 37, 60 + nums[i], 124 + nums[i]])
             while num in used:
                 num += 1
             used.add(num)
@@ -546,13 +568,17 @@ class Gen:
                 # only mandatory components
                 pass
             v = {}
+            nopt = sum(1 for c in rt.all_comps() if c.optional or c.has_default)
+            skip_p = 0.45
+            if nopt > 8:
+                skip_p = rng.choice([0.45, 0.9, 0.97])      # sparse presence: long gaps of absent OPTIONAL members
             for c in rt.all_comps():
                 in_ext = rt.ext is not None and c in rt.ext
                 must = not (c.optional or c.has_default) and not in_ext
                 crt = mod.resolve(c.type)
                 recursive = depth > 3
                 if not must:
-                    if recursive or rng.random() < 0.45:
+                    if recursive or rng.random() < skip_p:
                         continue
                 if c.has_default and rng.random() < 0.4:
                     v[c.name] = c.default
